@@ -19,7 +19,7 @@ def main(tier):
         PROP,
         "props.c09",
         tier,
-        6500,
+        8800,
         40000,
         rule_text="one evaluation per (input, variant, configuration): fix, re-parse, fix again (up to 5 passes when the second pass still changes the text); non-trivial = the second pass ran on an accepted first-pass output; distinct by case description",
         assumptions=["'eventually constant' restated as bounded progress: constant after at most 5 passes", "each pass parses the previous pass's text afresh under the same configuration object"],
